@@ -1155,6 +1155,12 @@ func (cfg *Config) getChallengeInfo(ctx context.Context, identifier string) (Cha
 		return Challenge{}, false, fmt.Errorf("decoding challenge token file %s (corrupted?): %v", tokenKey, err)
 	}
 
+	// the token file name is only the sanitized form of the identifier, which distinct
+	// identifiers can share; make sure the stored challenge really is for this one
+	if !strings.EqualFold(challengeKey(chalInfo), identifier) {
+		return Challenge{}, false, fmt.Errorf("challenge token file %s is for identifier %q, not %q", tokenKey, challengeKey(chalInfo), identifier)
+	}
+
 	return Challenge{Challenge: chalInfo}, true, nil
 }
 
